@@ -371,7 +371,7 @@ def s4(chk: Check, proj: Project, w) -> None:
 
 
 MANIFEST = {
-    "text": "Decides ownership of the registry tables and Library.tags (who may write), pairing and subject-variable consistency of every step in register/unregister/clear, validate-before-mutate as CFG non-reachability from state writes to raising statements including in-package callees, and agreement of PROTECTED_TAGS with the built-in tag classes registered by the templatetags module. Also: only the default library gets the default protected list, every class gets its own hash, deletions from the shared Library.tags are guarded, an empty protected list means 'nothing', and a callable settings input is evaluated per access. Round 4: the protected list is stored as a private copy, TAG_RE accepts every documented character (regex language), no duplicated boolean operand where a deprecated alias was meant. Round 5: the Library tag is (re-)installed on every registration (no per-registry memory of installed tags). Round 6: protected tags live on the Library object, never in an id()-keyed side table.",
+    "text": "Decides ownership of the registry tables and Library.tags (who may write), pairing and subject-variable consistency of every step in register/unregister/clear, validate-before-mutate as CFG non-reachability from state writes to raising statements including in-package callees, and agreement of PROTECTED_TAGS with the built-in tag classes registered by the templatetags module. Also: only the default library gets the default protected list, every class gets its own hash, deletions from the shared Library.tags are guarded, an empty protected list means 'nothing', and a callable settings input is evaluated per access. Round 4: the protected list is stored as a private copy, TAG_RE accepts every documented character (regex language), no duplicated boolean operand where a deprecated alias was meant. Round 5: the Library tag is (re-)installed on every registration (no per-registry memory of installed tags). Round 6: protected tags live on the Library object, never in an id()-keyed side table. Round 7: all() returns a fresh dict.",
     "note": "Trusted: django.template.Library.tag stores the function under tags[name]. Not decided: dictionary equivalence over histories.",
     "technique": "static who-may-write rule, CFG reachability (validate-before-mutate) with call-graph summaries of raising callees, table agreement",
 }
